@@ -230,6 +230,48 @@ pub fn check_lookups(v: &Value, r: &RVal) -> Result<u64, String> {
 	Ok(n)
 }
 
+/// For every byte offset of `s` that is a character boundary (and `s.len()`),
+/// the number of UTF-16 code units before it.
+fn utf16_offsets(s: &str) -> Vec<usize> {
+	let mut v = vec![usize::MAX; s.len() + 1];
+	let mut u = 0usize;
+	for (i, c) in s.char_indices() {
+		v[i] = u;
+		u += c.len_utf16();
+	}
+	v[s.len()] = u;
+	v
+}
+
+/// Converts the offsets of an error reported in UTF-16 units back to byte
+/// offsets; `None` when one of them is not a character boundary.
+fn err_to_utf8(e: &PErr, s: &str) -> Option<PErr> {
+	let fwd = utf16_offsets(s);
+	let back = |u: usize| fwd.iter().position(|x| *x == u);
+	Some(match e {
+		PErr::Unexpected(p, c) => PErr::Unexpected(back(*p)?, *c),
+		PErr::InvalidUtf8(p) => PErr::InvalidUtf8(back(*p)?),
+		PErr::Stream(p) => PErr::Stream(back(*p)?),
+		PErr::MissingLow { start, end, hi } => PErr::MissingLow {
+			start: back(*start)?,
+			end: back(*end)?,
+			hi: *hi,
+		},
+		PErr::InvalidLow { start, end, hi, cp } => PErr::InvalidLow {
+			start: back(*start)?,
+			end: back(*end)?,
+			hi: *hi,
+			cp: *cp,
+		},
+		PErr::InvalidCp { start, end, cp } => PErr::InvalidCp {
+			start: back(*start)?,
+			end: back(*end)?,
+			cp: *cp,
+		},
+		other => other.clone(),
+	})
+}
+
 impl Mon {
 	pub fn new(flags: Flags, seed: u64) -> Self {
 		let mut reader = Reader::new();
@@ -390,6 +432,22 @@ impl Mon {
 					}
 				}
 			}
+			// the same text through character sources that carry UTF-16 lengths: offsets are then in UTF-16 units
+			if !s.is_ascii() && (self.tick % 8 == 2 || fam == "surrogate-element-sequences" || fam == "lexical-transition-cover") {
+				for fallible in [false, true] {
+					if let Err(e) = real::parse_utf16_lengths(s, Opts::STRICT, fallible) {
+						self.rep.count("errors_checked_in_utf16_units", 1);
+						match err_to_utf8(&e, s) {
+							None => self.viol("C07", "utf16-lengths:not-a-boundary", fam, format!("with UTF-16 character lengths the error {:?} has an offset that is not a character boundary", e), b, json!({"entry": "parse_with/parse_infallible_with over DecodedChar::from_utf16"})),
+							Some(e8) => {
+								if let Err(m) = check_error(rd, &e8) {
+									self.viol("C07", &format!("utf16-lengths:{}", err_name(&e)), fam, format!("with UTF-16 character lengths (offsets converted back to bytes): {}", m), b, json!({"entry": "parse_with/parse_infallible_with over DecodedChar::from_utf16", "error": format!("{:?}", e)}));
+								}
+							}
+						}
+					}
+				}
+			}
 			// stream errors injected at a character position (documents free of surrogate anomalies)
 			if rd.sur.is_empty() && rd.pending_at_cut.is_none() && (b.len() <= 4 || self.tick % 4 == 0) {
 				let nchars = s.chars().count();
@@ -480,6 +538,31 @@ impl Mon {
 			}
 		}
 		self.compare_results(fam, b, rd, &results);
+		// character sources carrying UTF-16 lengths: spans are then in UTF-16 units
+		if self.flags.c05 && rd.root.is_some() {
+			if let Some(s) = text {
+				if !s.is_ascii() && (self.tick % 2 == 0 || b.len() <= 16) {
+					let m16 = utf16_offsets(s);
+					for fallible in [false, true] {
+						if let Ok((_, map)) = real::parse_utf16_lengths(s, Opts::STRICT, fallible) {
+							self.rep.count("code_maps_compared_in_utf16_units", 1);
+							let want: Vec<(usize, usize, usize)> = rd.frags.iter().map(|f| (m16[f.start], m16[f.end], f.volume)).collect();
+							if map != want {
+								let i = map.iter().zip(&want).position(|(a, b)| a != b).unwrap_or(map.len().min(want.len()));
+								self.viol(
+									"C05",
+									"utf16-lengths",
+									fam,
+									format!("with UTF-16 character lengths code-map entry {} is {:?}, expected {:?} (in UTF-16 units)", i, map.get(i), want.get(i)),
+									b,
+									json!({"entry": "parse_with/parse_infallible_with over DecodedChar::from_utf16"}),
+								);
+							}
+						}
+					}
+				}
+			}
+		}
 	}
 
 	fn compare_results(&mut self, fam: &str, b: &[u8], rd: &Reading, results: &[(&'static str, PRes)]) {
